@@ -174,6 +174,8 @@ def mon_files(files):
         if f["ev"] == "exec":
             if f["held"] != "w":
                 return "hook process started while the thread holds %r" % f["held"], f
+            if f.get("locked") != "w":
+                return "hook process started while the storage lock object reports locked=%r" % f.get("locked"), f
             continue
         if kind in (None, "lock"):
             continue
@@ -290,15 +292,15 @@ def run(ctx):
     model_ok = rcm == 0
     failing_methods = []
     if model_ok:
-        out = ctx.coq_show(HEADER, "(map (fun p => (fst p, check_skel (snd p))) requests, "
-                                   "map (fun p => (fst p, check_parse_first (snd p))) xml_handlers)")
-        verdicts = re.findall(r'\("(\w+)",\s*(true|false)\)', out)
-        ctx.extra["skeleton_verdicts"] = out[-900:]
-        seen = set()
-        for m, v in verdicts:
-            if v == "false" and m not in seen:
-                failing_methods.append(m)
-            seen.add(m)
+        _, out = ctx.coq_eval("c10_verdicts", HEADER + "Eval vm_compute in (map (fun p => (fst p, check_skel (snd p))) requests).\n"
+                              "Eval vm_compute in (map (fun p => (fst p, check_parse_first (snd p))) xml_handlers).\n", timeout=120)
+        parts = out.split(": list (string * bool)")
+        v10 = re.findall(r'\(\s*"(\w+)",\s*(true|false)\s*\)', parts[0]) if parts else []
+        v19 = re.findall(r'\(\s*"(\w+)",\s*(true|false)\s*\)', parts[1]) if len(parts) > 1 else []
+        ctx.extra["skeleton_verdicts"] = dict(check_skel=dict(v10), check_parse_first=dict(v19))
+        failing_methods = [m for m, v in v10 if v == "false"]
+        if len(v10) != 12:
+            ctx.obligation("model:skeleton verdicts evaluated", False, out[-800:])
         if failing_methods:
             ctx.log("skeleton check fails for:", failing_methods)
     else:
@@ -311,10 +313,10 @@ def run(ctx):
     n = ctx.n
     setup = x_c10.setup_requests()
     plan = [
-        ("fs", "multifilesystem", False, True, n(320, 3000), False),
-        ("fs_adv", "multifilesystem", True, True, n(220, 2000), False),
-        ("nolock", "multifilesystem_nolock", False, True, n(160, 1200), False),
-        ("nolock_adv", "multifilesystem_nolock", True, False, n(220, 2000), False),
+        ("fs", "multifilesystem", False, True, n(320, 9000), False),
+        ("fs_adv", "multifilesystem", True, True, n(220, 6000), False),
+        ("nolock", "multifilesystem_nolock", False, True, n(160, 4000), False),
+        ("nolock_adv", "multifilesystem_nolock", True, False, n(220, 6000), False),
     ]
     runs = []
     for (name, stype, adv, straced, count, ro), seed in zip(plan, seeds):
@@ -437,7 +439,7 @@ def evaluate(ctx, runs, base, model_ok, failing_methods):
     for name in ("audit", "syscall", "api", "corr", "ops"):
         if name in first:
             what, rp = first[name]
-            ctx.violation("C10 %s" % what, rp)
+            ctx.violation("C10 %s" % what, shrink(rp, base) if name in ("audit", "api") else rp)
             break
     ctx.extra["monitors_fired"] = sorted(first)
     if failing_methods:
@@ -451,6 +453,25 @@ def replay_of(run, i, **kw):
     return dict(storage_type=run.stype, adversary=run.adversary, conf=run.conf(), failing_request=run.reqs[i] if i >= 0 else None,
                 requests=upto, note="./check C10 --replay <this file> re-runs the sequence through vlib/drivers/c10_driver.py "
                 "and prints the monitors' verdict for the last request", **kw)
+
+
+def shrink(rp, base):
+    """Try the set-up followed by the failing request alone; keep the shorter sequence when the monitors still fire."""
+    try:
+        reqs = [r for r in rp["requests"][:-1] if r.get("kind") == "setup"] + [rp["requests"][-1]]
+        if len(reqs) >= len(rp["requests"]):
+            return rp
+        run = Run("shrink", rp["storage_type"], rp["adversary"], False, reqs)
+        run.execute(base, 300)
+        if run.error:
+            return rp
+        res = run.results[-1]
+        if mon_api(res["api"]) or mon_files(res["files"]):
+            fv = mon_files(res["files"])
+            return dict(rp, requests=reqs, api=res["api"], file_event=fv[1] if fv else None, shrunk_from=len(rp["requests"]))
+    except Exception:
+        pass
+    return rp
 
 
 def replay(ctx, path):
